@@ -126,6 +126,8 @@ type Enc struct {
 	axiomsUsed  []string
 	specUsed    map[string]bool
 	foldDone    map[string]bool
+	defined     map[string]bool // constants that have a defining equation
+	globalFacts int             // >0: assertions made now hold in every block (facts about shared constants)
 	opaqueUsed  map[string]bool
 	noFacts     bool // proving the facts themselves
 	inFact      bool // evaluating the statement of a fact: opaque functions stay opaque
@@ -152,7 +154,7 @@ type Enc struct {
 }
 
 func newEnc(w *World, cs *Contracts, fn *ssa.Function) *Enc {
-	e := &Enc{w: w, cs: cs, fn: fn, name: w.Names[fn], declared: map[string]bool{}, dtDone: map[string]bool{},
+	e := &Enc{w: w, cs: cs, fn: fn, name: w.Names[fn], declared: map[string]bool{}, defined: map[string]bool{}, dtDone: map[string]bool{},
 		oblCount: map[string]int{}, vals: map[ssa.Value]Val{}, tuples: map[ssa.Value][]Val{}, strs: map[string]string{},
 		heapSort: map[string]string{}, reach: map[*ssa.BasicBlock]string{}, outHeap: map[*ssa.BasicBlock]*Heap{},
 		edge: map[[2]int]string{}, loops: map[*ssa.BasicBlock]*loopInfo{}, inLoop: map[*ssa.BasicBlock][]*loopInfo{},
@@ -191,13 +193,32 @@ func (e *Enc) assert(t string) {
 	if t == "true" {
 		return
 	}
+	// `(= name term)` for a declared constant that has no definition yet is its definition: obligations carry it exactly
+	// when they mention the name (whatever block first needed it: constants and cached values are shared between blocks)
+	def := ""
+	if strings.HasPrefix(t, "(= ") {
+		if k := strings.IndexByte(t[3:], ' '); k > 0 {
+			nm := t[3 : 3+k]
+			if e.declared[nm] && !e.defined[nm] && !strings.Contains(t[3+k:], " "+nm+")") && !strings.Contains(t[3+k:], " "+nm+" ") {
+				def = nm
+				e.defined[nm] = true
+			}
+		}
+	}
+	blk := e.curBlock
+	if e.globalFacts > 0 {
+		blk = nil
+	}
 	e.asserts = append(e.asserts, t)
-	e.assertBlk = append(e.assertBlk, e.curBlock)
-	e.assertDef = append(e.assertDef, "")
+	e.assertBlk = append(e.assertBlk, blk)
+	e.assertDef = append(e.assertDef, def)
 }
 
 // scratchObj: allocation root of a local buffer that never escapes (see scratchBuffer), valid where `reach` holds.
-type scratchObj struct{ root, reach string }
+type scratchObj struct {
+	root, reach string
+	blk         *ssa.BasicBlock
+}
 
 // rollback drops the assertions made since there were na of them (a lenient clause that did not resolve).
 func (e *Enc) rollback(na int) {
@@ -775,6 +796,8 @@ func (e *Enc) strConst(s string) string {
 	}
 	n := fmt.Sprintf("str_%d", len(e.strs))
 	e.declare(n, "Str")
+	e.globalFacts++
+	defer func() { e.globalFacts-- }()
 	e.assert(app("=", app("strlen", n), ilit(int64(len(s)))))
 	for i := 0; i < len(s) && i < 8; i++ {
 		e.assert(app("=", app("strat", n, ilit(int64(i))), ilit(int64(s[i]))))
@@ -822,7 +845,9 @@ func (e *Enc) val(v ssa.Value) Val {
 	case *ssa.FreeVar:
 		r = Val{"fv_" + sanitize(c.Name()), e.sortOf(c.Type())}
 		e.declare(r.T, r.S)
+		e.globalFacts++
 		e.assert(e.typeFacts(r.T, c.Type()))
+		e.globalFacts--
 	case *ssa.Global:
 		r = Val{app("obj", ilit(globalID(c.String()))), "Ref"}
 	case *ssa.Function:
@@ -1246,13 +1271,21 @@ func (e *Enc) loadedRefFacts(h *Heap, key, srt, addr string) {
 		rdv = app("sarr", rdv)
 	}
 	for _, sc := range e.scratch {
+		if sc.blk != nil && e.curBlock != nil && !sc.blk.Dominates(e.curBlock) {
+			continue // not allocated on every path to this point
+		}
 		// no reference to a scratch buffer of this function is ever stored
 		e.assert(implies(sc.reach, app("distinct", app("rootid", rdv), sc.root)))
 	}
 	ht := e.heapGet(h, key, srt)
 	bases := map[string]bool{}
 	e.readBases(ht, 0, bases)
+	var bl []string
 	for b := range bases {
+		bl = append(bl, b)
+	}
+	sort.Strings(bl)
+	for _, b := range bl {
 		w, ok := e.wm[b]
 		if !ok || b == "?" {
 			continue
